@@ -6,6 +6,8 @@ import (
 	"context"
 	"encoding/json"
 	"fmt"
+	"net/http"
+	"net/http/httptest"
 	"regexp"
 	"sort"
 	"strings"
@@ -15,6 +17,7 @@ import (
 	"github.com/prometheus/common/promslog"
 	"google.golang.org/protobuf/types/known/timestamppb"
 
+	"github.com/prometheus/alertmanager/alert"
 	"github.com/prometheus/alertmanager/eventrecorder"
 
 	"github.com/prometheus/common/model"
@@ -37,7 +40,9 @@ import (
 var (
 	semNames  = []string{"a", "b", "job", "sev"}
 	semValues = []string{"", "a", "ab", "abc", "b", "A", "aa", "a\nb", "é", "x.y", "xzy", "ba", "\n", "a\n", "\nb", "ab\n", "a\r", "\r\n", "a\x00b", "b\na",
-		"prod", "production", "staging", "pre-staging", "a$", "a$x", "xb", "ax"}
+		"prod", "production", "staging", "pre-staging", "a$", "a$x", "xb", "ax",
+		// a backslash followed by n / quote / backslash (these reach every consumer that goes through text)
+		`C:\node`, `a\\nb`, `DOMAIN\nagios`, `x\"`, `a\`, `\\n`}
 	semPatterns = []string{"a", "a.*", "a|b", ".*", ".+", "", "[ab]+", "a$", "^a", "(?i)a", "a.b", "é", ".", "x.y", "b|", "a{2}", "(?s)a.b", "a|",
 		".*b", ".*a.*", "a.+", ".+b", "ab.*", ".*ab", "a.*b", "(?s).*", "b.*", ".*a",
 		// user-written anchors: around a top-level alternation, escaped trailing dollar, one side only
@@ -563,6 +568,14 @@ func runSil(run *vh.Run, c *Case) {
 		add("Silencer.Mutes", sr.Mutes(ctx, ls))
 		add("Silencer.Mutes (second call, cached)", sr.Mutes(ctx, ls))
 	}
+	// POST /api/v2/silences with a RAW JSON body (as curl or an older client sends it): isRegex always present,
+	// isEqual present-true / present-false / ABSENT (absent means true, says the API specification; only a positive
+	// matcher can be written that way). Then the stored silence is asked back through the store and the API.
+	if len(c.MSS) == 1 {
+		for _, o := range postSilenceRaw(run, c, ls) {
+			add(o.name, o.got)
+		}
+	}
 	// API filter path for a single list: filter=<String()>... on the alert's labels (no empty values there)
 	if len(c.MSS) == 1 {
 		var fs []string
@@ -586,4 +599,89 @@ func runSil(run *vh.Run, c *Case) {
 	c.Show = fmt.Sprintf("%d sets vs %v", len(c.MSS), ls)
 	term := vh.App("CSil", tableFor(all, ls), vhm.MatcherSet(mset), vhm.Labels(ls), vh.List(parts))
 	run.Add(term, c, true)
+}
+
+// postSilenceRaw posts the case's single matcher list as a raw JSON silence to a real API in front of a real store.
+// The case's Omit bits (derived from the matcher bytes, so replayable) decide which positive matchers omit isEqual.
+func postSilenceRaw(run *vh.Run, c *Case, ls model.LabelSet) []siteObs {
+	st := newStore(nil)
+	gf := func(context.Context, func(*dispatch.Route) bool, func(*alert.Alert, time.Time) bool) (dispatch.AlertGroups, map[model.Fingerprint][]string, error) {
+		return nil, nil, nil
+	}
+	api, err := v2.NewAPI(&fakeAlerts{}, gf, func(string, string) ([]string, bool) { return nil, false }, st, nil, promslog.NewNopLogger(), prometheus.NewRegistry())
+	if err != nil {
+		panic(err)
+	}
+	api.Update(&config.Config{Route: &config.Route{Receiver: "r"}, Receivers: []config.Receiver{{Name: "r"}}}, func(context.Context, model.LabelSet) {})
+	var items []string
+	for i, m := range c.MSS[0] {
+		name, _ := json.Marshal(string(m.N))
+		val, _ := json.Marshal(string(m.V))
+		item := fmt.Sprintf(`{"name": %s, "value": %s, "isRegex": %v`, name, val, m.T >= 2)
+		positive := m.T == 0 || m.T == 2
+		omit := positive && (len(m.V)+len(m.N)+i)%2 == 0
+		switch {
+		case omit:
+			run.Count("api_post_silence", "isEqual absent (means true)")
+		case positive:
+			item += `, "isEqual": true`
+			run.Count("api_post_silence", "isEqual present: true")
+		default:
+			item += `, "isEqual": false`
+			run.Count("api_post_silence", "isEqual present: false")
+		}
+		items = append(items, item+"}")
+	}
+	now := time.Now().UTC()
+	body := fmt.Sprintf(`{"comment": "c16", "createdBy": "verif", "startsAt": %q, "endsAt": %q, "matchers": [%s]}`,
+		now.Add(-time.Minute).Format(time.RFC3339), now.Add(time.Hour).Format(time.RFC3339), strings.Join(items, ", "))
+	req := httptest.NewRequest(http.MethodPost, "/api/v2/silences", strings.NewReader(body))
+	req.Header.Set("Content-Type", "application/json")
+	rec := httptest.NewRecorder()
+	api.Handler.ServeHTTP(rec, req)
+	if rec.Code != 200 {
+		run.Count("api_post_silence", fmt.Sprintf("rejected with status %d", rec.Code))
+		return nil
+	}
+	var out []siteObs
+	res, _, err := st.Query(context.Background(), silence.QState(silence.SilenceStateActive), silence.QMatches(ls))
+	if err != nil {
+		panic(err)
+	}
+	out = append(out, siteObs{"POST /api/v2/silences (raw JSON), then Query(QMatches)", len(res) == 1})
+	// the stored operators, read back through the store and through GET /api/v2/silences
+	all, _, err := st.Query(context.Background())
+	if err != nil || len(all) != 1 || len(all[0].MatcherSets) != 1 || len(all[0].MatcherSets[0].Matchers) != len(c.MSS[0]) {
+		run.Violate("api-post-silence-stored-shape", fmt.Sprintf("posted %s, stored %v", body, all), c)
+		return out
+	}
+	for i, pm := range all[0].MatcherSets[0].Matchers {
+		if pm.Type != pbTypes[c.MSS[0][i].T] || pm.Name != string(c.MSS[0][i].N) || pm.Pattern != string(c.MSS[0][i].V) {
+			run.Violate("api-post-silence-stored-matcher-differs", fmt.Sprintf("posted %s: matcher %d stored as %v, the body means %s", body, i, pm, showM(c.MSS[0][i])), c)
+			break
+		}
+	}
+	rec = httptest.NewRecorder()
+	api.Handler.ServeHTTP(rec, httptest.NewRequest(http.MethodGet, "/api/v2/silences", nil))
+	var got []struct {
+		Matchers []struct {
+			Name    string `json:"name"`
+			Value   string `json:"value"`
+			IsRegex bool   `json:"isRegex"`
+			IsEqual *bool  `json:"isEqual"`
+		} `json:"matchers"`
+	}
+	if rec.Code != 200 || json.Unmarshal(rec.Body.Bytes(), &got) != nil || len(got) != 1 || len(got[0].Matchers) != len(c.MSS[0]) {
+		run.Violate("api-get-silences-shape", fmt.Sprintf("GET /api/v2/silences: status %d body %s", rec.Code, rec.Body.String()), c)
+		return out
+	}
+	for i, gm := range got[0].Matchers {
+		m := c.MSS[0][i]
+		eq := gm.IsEqual == nil || *gm.IsEqual
+		if gm.Name != string(m.N) || gm.Value != string(m.V) || gm.IsRegex != (m.T >= 2) || eq != (m.T == 0 || m.T == 2) {
+			run.Violate("api-get-silences-matcher-differs", fmt.Sprintf("posted %s: GET shows matcher %d as %+v, the body means %s", body, i, gm, showM(m)), c)
+			break
+		}
+	}
+	return out
 }
